@@ -167,6 +167,18 @@ def list (acc : Int → Bool) (sh : Shard) (mode : ListMode) (early : Bool) (fie
 def typeRepoSet (acc : Int → Bool) (sh : Shard) (mode : ListMode) (early : Bool) : List String :=
   (list acc sh mode early .repos).repos.filterMap fun i => sh.repos[i]?.map (·.name)
 
+/-- the shard as the match tree of `RepoSet{set} AND rest` sees it: a document outside the set does not match -/
+def restrictToSet (sh : Shard) (set : List String) : Shard :=
+  ⟨sh.repos, sh.docs.map fun d =>
+    match sh.repos[d.repo]? with
+    | some r => if set.contains r.name then d else { d with count := 0 }
+    | none => d⟩
+
+/-- `typeRepoSearcher.Search` of `(type:repo child) AND rest` on one shard: `shChild` carries the match tree's verdicts
+    for `child` (used by the List that builds the RepoSet), `shRest` those for `rest`; both have the same repositories -/
+def typeRepoSearch (acc : Int → Bool) (shChild shRest : Shard) (mode : ListMode) (earlyChild : Bool) : SearchOut :=
+  search acc (restrictToSet shRest (typeRepoSet acc shChild mode earlyChild)) false 0
+
 /-- the sharded searcher (search/shards.go) hands the same context to every shard and only copies, splits by
     repository or unions what the shards return: its result is made of the per-shard results -/
 def searchShards (acc : Int → Bool) (shs : List (Shard × Bool)) (maxRepo : Nat) : List SearchOut :=
